@@ -279,13 +279,15 @@ def check_C15(tier: str, seed: int) -> int:
 
 
 # ----------------------------------------------------------------------------- C08: memory guard
-MG_ALPHABET = '{"newarr", "npview", "freeze", "wrap", "op", "view", "fail", "clear", "dropt", "dropa"}'
+MG_ALPHABET = '{"newarr", "npview", "freeze", "wrap", "op", "opout", "view", "fail", "failout", "clear", "dropt", "dropa"}'
+MG_ALPHA_A = '{"newarr", "npview", "freeze", "wrap", "op", "view", "fail", "clear", "dropt", "dropa"}'
+MG_ALPHA_B = '{"newarr", "npview", "wrap", "op", "opout", "failout", "clear", "dropt", "dropa"}'
 
 
-def _mg_cfg(path, na, nt, no, maxlen, emit, invariants):
+def _mg_cfg(path, na, nt, no, maxlen, emit, invariants, alphabet=None):
     with open(path, "w") as f:
         f.write(f"SPECIFICATION Spec\nCONSTANTS\n  NA = {na}\n  NT = {nt}\n  NO = {no}\n  MaxLen = {maxlen}\n"
-                f"  EmitHist = {'TRUE' if emit else 'FALSE'}\n  Alphabet = {MG_ALPHABET}\n"
+                f"  EmitHist = {'TRUE' if emit else 'FALSE'}\n  Alphabet = {alphabet or MG_ALPHABET}\n"
                 + "".join(f"INVARIANT {i}\n" for i in invariants) + "CHECK_DEADLOCK FALSE\n")
 
 
@@ -342,18 +344,21 @@ def check_C08(tier: str, seed: int) -> int:
         # (1) design: exhaustive over all histories incl. every order of drops / clears / failures
         cfg = os.path.join(scratch, "mc.cfg")
         na, nt, no = (3, 4, 2)
-        _mg_cfg(cfg, na, nt, no, 0, False, ["Safe", "Restored", "NoLeak", "CountersSane"])
-        info, o, violated = core.design_run(out, spec, cfg, workers=16, timeout=3000,
-                                            label=f"MemGuard exhaustive NA={na} NT={nt} NO={no}")
-        if violated:
-            out.machinery("MemGuard.tla: TLC found a design-level violation outside the listed known findings; it must be "
-                          "replayed and triaged (see DESIGN 4.3): " + o[o.find("Error:"):][:1500])
-        out.coverage["states"] = info["distinct_states"] or 0
-        out.coverage["transitions"] = info["states_generated"] or 0
+        out.coverage["states"] = 0
+        out.coverage["transitions"] = 0
+        for lab, alpha in (("A: views, freezes, failures", MG_ALPHA_A), ("B: out= targets, failing out=", MG_ALPHA_B)):
+            _mg_cfg(cfg, na, nt, no, 0, False, ["Safe", "Restored", "NoLeak", "CountersSane"], alpha)
+            info, o, violated = core.design_run(out, spec, cfg, workers=16, timeout=3000,
+                                                label=f"MemGuard exhaustive NA={na} NT={nt} NO={no} alphabet {lab}")
+            if violated:
+                out.machinery("MemGuard.tla: TLC found a design-level violation outside the listed known findings; it must "
+                              "be replayed and triaged (see DESIGN 4.3): " + o[o.find("Error:"):][:1500])
+            out.coverage["states"] += info["distinct_states"] or 0
+            out.coverage["transitions"] += info["states_generated"] or 0
         out.coverage["exhaustive"] = True
         if not quick:
             cfg2 = os.path.join(scratch, "mc2.cfg")
-            _mg_cfg(cfg2, 4, 5, 2, 0, False, ["Safe", "Restored", "NoLeak", "CountersSane"])
+            _mg_cfg(cfg2, 4, 5, 2, 0, False, ["Safe", "Restored", "NoLeak", "CountersSane"], MG_ALPHA_A)
             try:
                 info2, o2, v2 = core.design_run(out, spec, cfg2, workers=16, timeout=1500,
                                                 label="MemGuard NA=4 NT=5 NO=2 (time-bounded)")
@@ -373,11 +378,16 @@ def check_C08(tier: str, seed: int) -> int:
         # (3) spec -> code: every behaviour of the stated length replayed with real arrays / tensors / dels
         cfg3 = os.path.join(scratch, "emit.cfg")
         maxlen = 5 if quick else 6
-        _mg_cfg(cfg3, 3, 4, 2, maxlen, True, ["Emit"])
-        rc, o3, wall = tlc.run_tlc(spec, cfg3, workers=1, timeout=3000, heap="8g")
-        behs, bad = replay.parse_behaviours(o3)
-        if rc != 0 or bad or not behs:
-            out.machinery(f"MemGuard emission failed rc={rc} bad={bad} n={len(behs)}: {o3[-600:]}")
+        behs = []
+        o3 = ""
+        for alpha in (MG_ALPHA_A, MG_ALPHA_B):
+            _mg_cfg(cfg3, 3, 4, 2, maxlen, True, ["Emit"], alpha)
+            rc, o3x, wall = tlc.run_tlc(spec, cfg3, workers=1, timeout=3000, heap="8g")
+            bx, bad = replay.parse_behaviours(o3x)
+            if rc != 0 or bad or not bx:
+                out.machinery(f"MemGuard emission failed rc={rc} bad={bad} n={len(bx)}: {o3x[-600:]}")
+            behs += bx
+            o3 = o3x
         # (4) long random behaviours (simulation) replayed as well
         cfg4 = os.path.join(scratch, "sim.cfg")
         _mg_cfg(cfg4, 4, 6, 3, 14, True, ["Emit"])
